@@ -111,6 +111,12 @@ def received_messages_reach_dispatch(ctx, rule: str, answers: bool = True, reque
     for n in rets:
         facts = R.facts(n)
         is_req = R.is_request_fact(facts, True)
+        # an exit that depends on the state of the connection or of the node only (closed,
+        # stopping) treats every message alike and is not a filter on what was received
+        import re as _re
+        about_msg = [a for a in facts if _re.search(rf"\b{_re.escape(R.msg)}\b", str(a[0]) + " " + str(a[2]))]
+        if facts and not about_msg:
+            continue
         if answers and not is_req:
             ctx.fail("_receive_message:answer-reaches-dispatch", g.loc(n),
                      f"`return` before the dispatch on a path that a received answer can take "
